@@ -79,6 +79,10 @@ static const char *PROPS; static int RAW;
 static long n_exec, n_trans, n_calls, n_states, n_dev_exec, n_merge_checks;
 static long per_depth_states[MAXD + 1], per_depth_trans[MAXD + 1];
 static hx_cfgspec CFG;
+/* merge self-check (--bisim): every history that was merged into an already known state is kept; once the next level is complete, each of its
+ * one-step successors must be a known state too (two histories with equal canonical state must have the same futures) */
+static int BISIM, BISIM_DEPTH; typedef struct nvecf { node *p; size_t n, cap; } nvecf; static nvecf dups_cur, dups_prev; static long n_dup_kept, n_dup_capped, n_merge_unsound;
+static int vs_has(const vset *s, hx_h128 h) { if (h.a == 0 && h.b == 0) h.a = 1; if (!s->cap) return 0; size_t j = (size_t) h.a & (s->cap - 1); while (s->e[j].a || s->e[j].b) { if (s->e[j].a == h.a && s->e[j].b == h.b) return 1; j = (j + 1) & (s->cap - 1); } return 0; }
 
 static void build_script(const node *nd, int extra_ev, int dev_rel_to_abs_n, int dev_act) {
     hx_script_init(&S); S.cfg = CFG; S.raw = RAW; S.want_canon = 1;
@@ -111,7 +115,17 @@ static int expand_one(const node *nd, int e, int dev_n, int dev_act, node *child
     if (ncb_after) *ncb_after = O.ncb;
     if (ncb_before) { *ncb_before = 0; int callsbefore = 0; (void) callsbefore; }
     hx_h128 h = hx_hash128(O.canon.p, O.canon.n);
-    if (!vs_add(&seen, h)) return 0;
+    if (!vs_add(&seen, h)) {
+        if (BISIM && !dev_act && nd->len + 1 < BISIM_DEPTH) {        /* merges made while building the last level cannot be judged (no level after it) */
+            if (dups_cur.n < (1u << 19)) {
+                if (dups_cur.n == dups_cur.cap) { dups_cur.cap = dups_cur.cap ? dups_cur.cap * 2 : 1024; dups_cur.p = realloc(dups_cur.p, dups_cur.cap * sizeof(node)); }
+                node *k = &dups_cur.p[dups_cur.n++]; *k = *nd; k->ev[k->len++] = (uint8_t) e;
+                k->flags = (uint8_t) ((O.final_susp[0] ? 1 : 0) | (O.final_susp[1] ? 2 : 0) | ((nd->flags & 4) || EV[e].k == OP_CLOSE ? 4 : 0));
+                n_dup_kept++;
+            } else n_dup_capped++;
+        }
+        return 0;
+    }
     *child = *nd;
     child->ev[child->len++] = (uint8_t) e;
     if (dev_act && child->ndev < 2) { child->dev_n[child->ndev] = (uint16_t) dev_n; child->dev_act[child->ndev] = (uint8_t) dev_act; child->ndev++; }
@@ -157,6 +171,9 @@ static int worker(int argc, char **argv) {
     /* labelled scenario: the TRANSACTION_COMPLETE callback destroys its own transaction (auto-destroy off) */
     if (hx_flag(argc, argv, "--selfdestroy")) { DEV_ACTS[0] = CBA_DESTROY_SELF; NDEVACTS = 1; }
     if (depth > MAXD) depth = MAXD;
+    BISIM = atoi(hx_arg(argc, argv, "--bisim", "0"));
+    BISIM_DEPTH = depth;
+    if (BISIM) { if (hx_shard_i != 0) return 0; hx_shard_n = 1; }            /* the self-check needs every state expanded by the same process */
     cfg_menu(cfgi, &CFG);
     gx_deflate(&gz_ok, (const uint8_t *) "ok", 2, 0);
     if (!strcmp(alpha, "micro")) alphabet_micro(CFG.field_limit_hard != 0); else alphabet_macro();
@@ -181,6 +198,25 @@ static int worker(int argc, char **argv) {
             for (size_t i = 0; i < next.n; i++) if ((long) i % hx_shard_n == hx_shard_i) next.p[k++] = next.p[i];
             next.n = k;
         }
+        if (BISIM) {
+            /* level d is complete: the merged histories recorded while building level d-1 can be judged now */
+            for (size_t i = 0; i < dups_prev.n && !hx_deadline_hit(); i++) {
+                const node *dn = &dups_prev.p[i];
+                for (int e = 0; e < NEV; e++) {
+                    if (!enabled(dn, e)) continue;
+                    build_script(dn, e, 0, 0);
+                    if (hx_run(&S, &O)) continue;
+                    n_exec++; n_merge_checks++;
+                    if (!vs_has(&seen, hx_hash128(O.canon.p, O.canon.n))) {
+                        n_merge_unsound++;
+                        static hx_buf b; hb_reset(&b); for (int k = 0; k < dn->len; k++) { hb_puts(&b, EV[dn->ev[k]].name); hb_puts(&b, " ; "); } hb_puts(&b, EV[e].name); hb_term(&b);
+                        char msg[900]; snprintf(msg, sizeof msg, "state merge is not a bisimulation: the history \"%.700s\" was merged into a known state one event earlier, but its successor is a state the search never reached", (char *) b.p);
+                        hx_emit_script_violation(PROPS, "selfcheck_merge", msg, &S, &O);
+                    }
+                }
+            }
+            nvecf t2 = dups_prev; dups_prev = dups_cur; dups_cur = t2; dups_cur.n = 0;
+        }
         nvec t = cur; cur = next; next = t;
         if (d == depth) hx_emit_max("depth_completed", d);
     }
@@ -191,6 +227,7 @@ static int worker(int argc, char **argv) {
     hx_emit_stat("distinct_outcomes", (n_states + 1 - shared_states) + (first ? shared_states : 0));
     hx_emit_stat("data_calls", n_calls);
     hx_emit_stat("callback_deviation_executions", n_dev_exec);
+    if (BISIM) { hx_emit_stat("merged_histories_rechecked", n_dup_kept); hx_emit_stat("merge_successor_checks", n_merge_checks); hx_emit_stat("merge_unsound", n_merge_unsound); if (n_dup_capped) hx_emit_cap("merged_histories_kept"); }
     return 0;
 }
 int main(int argc, char **argv) { return hx_supervise(argc, argv, worker); }
